@@ -349,6 +349,38 @@ def h_solve_rabin_game(ctx):
         if L['zold'] is not None:
             L['zk'][:] = [L['z']]
 
+    def _havoc_yki(w_, L):
+        if L['zold'] is not None:
+            L['yki'][:] = [[w_.pred(f'yk!{k}', w_.STATE) for k in range(K)]]
+
+    def _havoc_xkijr(w_, L):
+        if L['zold'] is not None:
+            L['xkijr'][:] = [[[[w_.pred(f'xkp!{k}_{j}', w_.STATE), w_.pred(f'xkl!{k}_{j}', w_.STATE)]
+                               for j in range(J)] for k in range(K)]]
+
+    def iterate_facts(zk, yki, xkijr, tz, tzold):
+        """Facts of the LAST entry of the three lists w.r.t. the previous
+        outer iterate `zold` (append-only lists: every entry by induction)."""
+        ok = (len(zk) == len(yki) == len(xkijr) >= 1 and len(yki[-1]) == K
+              and len(xkijr[-1]) == K
+              and all(len(xjr) == J and all(len(xr) >= 1 for xr in xjr)
+                      for xjr in xkijr[-1]))
+        out = [('iterates_structure: equally long lists, one cycle set and one family of layer lists per persistence predicate',
+                z3.BoolVal(ok))]
+        if not ok:
+            return out
+        ys = [w.term(y) for y in yki[-1]]
+        out.append(('iterates_z_is_zold_or_cycle_sets', spec.equiv(
+            w, tz, z3.Or(tzold, *ys))))
+        for k in range(K):
+            ins = z3.And(cpre(tE, tS, ys[k]), g_of(k, tzold))
+            for j in range(J):
+                out += layer_facts(w, cpre, tE, tS, ins, tg[j], xkijr[-1][k][j],
+                                   tag=f'iterates_hold{k}_goal{j}_')
+                out.append((f'iterates_hold{k}_goal{j}_y_below_last_layer',
+                            spec.subset(w, ys[k], w.term(xkijr[-1][k][j][-1]))))
+        return out
+
     def inv(L):
         z, zold = L['z'], L['zold']
         tz = w.term(z)
@@ -363,6 +395,7 @@ def h_solve_rabin_game(ctx):
             for k in range(K):
                 out.append((f'CYC{k}_of_zold_below_z', z3.Implies(
                     postfixed_hyp(k, Ls), spec.subset(w, Q[k], tz))))
+            out += iterate_facts(L['zk'], L['yki'], L['xkijr'], tz, tzo)
         return out
 
     loops = {0: dict(
@@ -371,7 +404,7 @@ def h_solve_rabin_game(ctx):
                   xijr=lambda w_, L: list(), yi=lambda w_, L: list(),
                   hold=lambda w_, L: None, y=lambda w_, L: None,
                   xjr=lambda w_, L: None),
-        mutated=dict(zk=_havoc_zk),
+        mutated=dict(zk=_havoc_zk, yki=_havoc_yki, xkijr=_havoc_xkijr),
         inv=inv)}
     before = snapshot(aut)
     if w.symbolic:
@@ -397,6 +430,9 @@ def h_solve_rabin_game(ctx):
                         z3.And(spec.equiv(w, a.inside, b.inside),
                                spec.equiv(w, a.goal, b.goal)),
                         spec.equiv(w, a.X, b.X)))
+        # at exit z == zold: the facts of the last entry hold w.r.t. zk[-1] itself
+        for label, fm in iterate_facts(zk, yki, xkijr, tz, tz):
+            w.oblige(f'solve_rabin_game.post: {label} (last entry, w.r.t. the previous outer iterate, which equals zk[-1] at exit; every entry t w.r.t. zk[t-1] by induction)', fm)
         for k in range(K):
             w.oblige(f'solve_rabin_game.post: CYC_{k}(z) <= z   (pre-fixed point of the outer operator)',
                      z3.Implies(postfixed_hyp(k, Lf), spec.subset(w, Q[k], tz)))
